@@ -325,52 +325,73 @@ example :
 
 /-- **slice_in_bounds**: for a non-negative slice length the helper returns `0 ≤ start ≤ end ≤ sliceLen`, for every
 offset and batch size (negative ones included: they arise from `int(uint64)`). -/
-theorem slice_in_bounds (n off b : Int) (hn : 0 ≤ n) :
+theorem wrap64_id (x : Int) (h0 : -(2 ^ 63) ≤ x) (h1 : x < 2 ^ 63) : wrap64 x = x := by
+  unfold wrap64
+  have : (x + 2 ^ 63) % 2 ^ 64 = x + 2 ^ 63 := Int.emod_eq_of_lt (by omega) (by omega)
+  omega
+
+/-- the sum `offset + batch` is a Go `int` addition: the bounds hold when it does not wrap (`off + b < 2⁶³`; a batch size at
+least `2⁶³ − offset`, which the parameter validation accepts, wraps — `slice_wrap_counterexample`, finding D41) -/
+theorem slice_in_bounds (n off b : Int) (hn : 0 ≤ n) (hw : off + b < 2 ^ 63) :
     0 ≤ (sliceStartEnd n off b).1 ∧ (sliceStartEnd n off b).1 ≤ (sliceStartEnd n off b).2 ∧ (sliceStartEnd n off b).2 ≤ n := by
   unfold sliceStartEnd
   by_cases h1 : (off ≥ n || off < 0 || b < 0) = true
   · simp only [h1, if_true]; omega
   · simp only [h1]
     simp only [Bool.or_eq_true, decide_eq_true_eq, not_or, Int.not_le, Int.not_lt] at h1
+    have hwid : wrap64 (off + b) = off + b := wrap64_id _ (by omega) hw
+    rw [hwid]
     by_cases h2 : off + b ≥ n
     · simp only [h2, if_true]; simp; omega
     · simp only [h2, if_false]; simp; omega
 
-theorem sweep_bounds_in_range (n off b : Int) (hn : 0 ≤ n) :
+theorem sweep_bounds_in_range (n off b : Int) (hn : 0 ≤ n) (hb : b < 2 ^ 63) (hw : off + b < 2 ^ 63) :
     0 ≤ (sweepBounds n off b).1 ∧ (sweepBounds n off b).1 ≤ (sweepBounds n off b).2 ∧ (sweepBounds n off b).2 ≤ n := by
   unfold sweepBounds
   simp only
   split
-  · exact slice_in_bounds n 0 b hn
-  · exact slice_in_bounds n off b hn
+  · exact slice_in_bounds n 0 b hn (by omega)
+  · exact slice_in_bounds n off b hn hw
 
 theorem intOfU64_small (x : Nat) (h : x < 2 ^ 63) : intOfU64 x = (x : Int) := by
   simp [intOfU64, h]
 
 /-- **Vault sweeps are total if the counter does not exceed the capacity of the stored list** (the C01 invariant
 "counter = number of stored vaults" implies it, since `len ≤ cap`). -/
-theorem sweep_total_if_counter_le_cap (cap counter offset batch : Nat) (h1 : counter ≤ cap) (h2 : counter < 2 ^ 63) :
+theorem intOfU64_lt (x : Nat) (hx : x < 2 ^ 64) : intOfU64 x < 2 ^ 63 := by
+  unfold intOfU64; split <;> omega
+
+theorem sweep_total_if_counter_le_cap (cap counter offset batch : Nat) (h1 : counter ≤ cap) (h2 : counter < 2 ^ 63)
+    (hb : batch < 2 ^ 64) (hw : intOfU64 offset + intOfU64 batch < 2 ^ 63) :
     sweepSliceOk cap counter offset batch = true := by
   unfold sweepSliceOk goSliceOk
   rw [intOfU64_small counter h2]
-  have h := sweep_bounds_in_range (counter : Int) (intOfU64 offset) (intOfU64 batch) (by omega)
+  have h := sweep_bounds_in_range (counter : Int) (intOfU64 offset) (intOfU64 batch) (by omega) (intOfU64_lt batch hb) hw
   simp only [Bool.and_eq_true, decide_eq_true_eq]
   refine ⟨⟨h.1, h.2.1⟩, ?_⟩
   have : ((counter : Nat) : Int) ≤ (cap : Int) := by omega
   omega
 
 /-- **Borrow sweeps** slice `borrowIDs` by `len(borrowIDs)` itself: always total. -/
-theorem borrow_sweep_total (len cap offset batch : Nat) (h1 : len ≤ cap) (h2 : len < 2 ^ 63) :
+theorem borrow_sweep_total (len cap offset batch : Nat) (h1 : len ≤ cap) (h2 : len < 2 ^ 63)
+    (hb : batch < 2 ^ 64) (hw : intOfU64 offset + intOfU64 batch < 2 ^ 63) :
     sweepSliceOk cap len offset batch = true :=
-  sweep_total_if_counter_le_cap cap len offset batch h1 h2
+  sweep_total_if_counter_le_cap cap len offset batch h1 h2 hb hw
+
+/-- **D41 witness**: five stored vaults, counter 5, offset 1 and a batch size of `2⁶³ − 1` (accepted by the parameter
+validation, which only demands `> 0`): `offset + batch` wraps to `−2⁶³`, the helper returns `(1, −2⁶³)` and
+`totalVaults[1:−2⁶³]` panics in the unwrapped prelude of the sweep. -/
+theorem slice_wrap_counterexample : sliceStartEnd 5 1 (2 ^ 63 - 1) = (1, -(2 ^ 63)) ∧ sweepSliceOk 5 5 1 (2 ^ 63 - 1) = false := by
+  decide
 
 example : sweepSliceOk 4 3 0 200 = true := by decide
 
 /-- **D3 witness**: one stored vault (capacity 1), counter 2, offset 0, default batch 200 ⇒ `totalVaults[0:2]` panics. -/
 theorem d3_counterexample : sweepSliceOk 1 2 0 200 = false := by decide
 
-theorem sliceStartEnd_full (n b : Int) (hn : 0 < n) (hb : n ≤ b) : sliceStartEnd n 0 b = (0, n) := by
+theorem sliceStartEnd_full (n b : Int) (hn : 0 < n) (hb : n ≤ b) (hb2 : b < 2 ^ 63) : sliceStartEnd n 0 b = (0, n) := by
   unfold sliceStartEnd
+  rw [wrap64_id (0 + b) (by omega) (by omega)]
   have h1 : ¬ ((0 : Int) ≥ n) := by omega
   have h3 : ¬ (b < 0) := by omega
   simp [h1, h3]
@@ -384,7 +405,7 @@ theorem d3_panics_when_counter_exceeds_cap (cap counter batch : Nat) (h1 : cap <
   unfold sweepSliceOk sweepBounds
   rw [intOfU64_small counter h2, intOfU64_small batch h4]
   have h0 : intOfU64 0 = 0 := by decide
-  rw [h0, sliceStartEnd_full (counter : Int) (batch : Int) (by omega) (by omega)]
+  rw [h0, sliceStartEnd_full (counter : Int) (batch : Int) (by omega) (by omega) (by omega)]
   have hne : ¬ ((0 : Int) = (counter : Int)) := by omega
   simp only [hne, if_false]
   unfold goSliceOk
